@@ -3,8 +3,8 @@
    and the unpacking order REGENERATED from /repo (FLGen.Gen_labels) on every run; the model
    (FL.BaseRates, evaluated in the correspondence run) is tied to them by C14_source_tie. *)
 From Coq Require Import QArith ZArith List Bool.
-From FL Require Import Num ListX BaseRates BaseRates_proofs.
-From FLGen Require Gen_labels.
+From FL Require Import Num ListX BaseRates BaseRates_proofs BaseRatesSrc BaseRatesSrc_proofs.
+From FLGen Require Gen_labels Gen_ratebodies.
 Import ListNotations.
 Open Scope Q_scope.
 
@@ -30,6 +30,43 @@ Theorem C14_source_tie :
   (forall a b sw pos, fnr_src a b sw pos = false_negative_rate a b sw pos).
 Proof. repeat split; intros; reflexivity. Qed.
 Print Assumptions C14_source_tie.
+
+(* The BODIES of the seven functions, regenerated from /repo on every run (FLGen.Gen_ratebodies), evaluate
+   to the model functions the correspondence run executes and the theorems below are about:
+   - each rate: labels from np.unique of BOTH y_true and y_pred stacked, pos_label forwarded,
+     confusion_matrix(y_true, y_pred, sample_weight=sample_weight, labels=<those labels>,
+     normalize="true").ravel(), and the returned cell (eq_refl checks the shape by computation);
+   - selection_rate: `selected = squeeze(y_pred) == pos_label`, ValueError on empty, weights squeeze(sample_weight)
+     or np.ones(len(selected)), np.dot(selected, s_w) / s_w.sum(); default pos_label 1;
+   - mean_prediction: np.dot(squeeze(y_pred), s_w) / s_w.sum() with the same weights;
+   - count: check_consistent_length(y_true, y_pred); len(y_true).
+   Trusted (named in BaseRates.v / BaseRatesSrc.v): sklearn's normalize="true" is weighted cells / row sum
+   with 0 for an empty row (cm_norm); squeeze is the identity on 1-D data. *)
+Theorem C14_source_bodies :
+  (forall a b sw pos, eval_rate labels_src Gen_ratebodies.body_true_positive_rate a b sw pos
+                      = true_positive_rate a b sw pos) /\
+  (forall a b sw pos, eval_rate labels_src Gen_ratebodies.body_true_negative_rate a b sw pos
+                      = true_negative_rate a b sw pos) /\
+  (forall a b sw pos, eval_rate labels_src Gen_ratebodies.body_false_positive_rate a b sw pos
+                      = false_positive_rate a b sw pos) /\
+  (forall a b sw pos, eval_rate labels_src Gen_ratebodies.body_false_negative_rate a b sw pos
+                      = false_negative_rate a b sw pos) /\
+  (forall a b sw pos, eval_stm (mk_ctx a b sw pos) Gen_ratebodies.body_selection_rate = selection_rate b pos sw) /\
+  (forall a b sw pos, eval_stm (mk_ctx a b sw pos) Gen_ratebodies.body_mean_prediction = mean_prediction b sw) /\
+  (forall a b, eval_count Gen_ratebodies.body_count a b = count a b).
+Proof.
+  exact (source_bodies labels_src
+           Gen_ratebodies.body_true_positive_rate Gen_ratebodies.body_true_negative_rate
+           Gen_ratebodies.body_false_positive_rate Gen_ratebodies.body_false_negative_rate
+           Gen_ratebodies.body_selection_rate Gen_ratebodies.body_mean_prediction Gen_ratebodies.body_count
+           eq_refl eq_refl eq_refl eq_refl).
+Qed.
+Print Assumptions C14_source_bodies.
+
+(* the default positive label of selection_rate (what the correspondence run uses for an omitted pos_label) *)
+Theorem C14_selection_rate_default : Gen_ratebodies.selection_rate_default_pos_label = 1%Z.
+Proof. exact eq_refl. Qed.
+Print Assumptions C14_selection_rate_default.
 
 (* labels_for_cm_spec: (other, pos) with pos last; a single value gets the missing class
    synthesised; >2 values, pos_label absent from two values, or no pos_label outside
